@@ -73,8 +73,8 @@ def gen_retry(rng, prof):
               "rate": rng.choice([1, 1.5, 2, 3]), "jitter": rng.choice(["NONE", "FULL", "HALF"])}
         if rng.random() < 0.25:
             rs["types"] = rng.sample(USER_ERRS, 2)
-        elif rng.random() < 0.2:
-            rs["errors"] = [rng.choice(["boom", "transient", "nomatch"])]
+        elif rng.random() < 0.3:
+            rs["errors"] = [rng.choice(["boom", "transient", "nomatch", "rate exceeded (429)", "[denied]", "a.b", "x+"])]
         return rs
     n = rng.randrange(1, 4)
     decs = [{"retry": rng.choice([0, 0, 1, 2, 7])} for _ in range(n)] + [{"no": 1}]
@@ -92,7 +92,7 @@ def gen_fn(rng, prof, allow_fail=True):
     else:
         mode = rng.choice(["k-then-ok", "k-then-ok", "always", "nonretry"])
         cls = rng.choice(USER_ERRS)
-        msg = rng.choice(["boom", "transient glitch", "x"])
+        msg = rng.choice(["boom", "transient glitch", "x", "rate exceeded (429)", "access [denied]", "axb", "xx"])
         if mode == "k-then-ok":
             k = rng.randrange(1, 4)
             att = [{"do": "raise", "cls": cls, "msg": msg} for _ in range(k)] + [{"do": "ret", "v": vspec()}]
@@ -187,6 +187,9 @@ class Gen:
             st = {"op": "callback", "between": []}
             if rng.random() < 0.5:
                 st["between"] = [self.step(allow_fail=False) for _ in range(rng.randrange(1, 3))]
+                if self.w.get("log", 0) > 0 and rng.random() < 0.6:
+                    st["between"].insert(rng.randrange(len(st["between"]) + 1), {"op": "log"})
+                    st["between"].append({"op": "log"})
             sc = self.ext("callback")
             if sc["outcome"] == "timeout":
                 st["cfg"] = {"timeout": rng.choice([1, 3, 30])}
@@ -212,6 +215,8 @@ class Gen:
         if k == "invoke":
             st = {"op": "invoke", "target": rng.choice(["fn-a", "fn-b:live"]),
                   "payload": gen_value(rng, 1, False) if rng.random() < 0.8 else ["dict", {"a": ["int", 1]}]}
+            if rng.random() < 0.3:
+                st["serdes"] = rng.choice(["payload", "result", "both"])
             if in_branch:
                 st["timeout"] = rng.choice([1, 5, 60])
             elif rng.random() < 0.3:
@@ -219,6 +224,8 @@ class Gen:
             sc = self.ext("invoke")
             if sc["outcome"] == "never":
                 sc["outcome"] = "timeout"
+            if st.get("serdes") in ("result", "both") and sc.get("payload") is not None:
+                sc["payload"] = "X" + sc["payload"]  # the invoked function answers in the caller's result encoding
             st["_ext"] = sc
             return self.wrap_try(st, 0.8)
         if k == "wfcond":
@@ -249,7 +256,7 @@ class Gen:
                     if rng.random() < 0.35:
                         cfg["tol"] = rng.choice([0, 1, nb])
                     if rng.random() < 0.2:
-                        cfg["pct"] = rng.choice([0, 34, 50, 100])
+                        cfg["pct"] = rng.choice([0, 14, 20, 25, 33, 34, 50, 66, 100])
                 else:
                     cfg["tol"] = nb  # never exceeded: result independent of completion order
             branches = []
@@ -331,6 +338,13 @@ def gen_knobs(rng, prof):
         k["drain"] = rng.choice([0.5, 5.0])
     if rng.random() < 0.3:
         k["skew"] = rng.choice([-2.0, -0.3, 0.3, 2.0])
+    if prof.get("scaled_limits", True) and rng.random() < 0.2:
+        # scaled-down size limits (a stated knob): ordinary results take the summary / large-result paths
+        k["limits"] = {"ckpt": rng.choice([40, 200, 1000]), "resp": rng.choice([300, 2000, 6 * 1024 * 1024 - 50])}
+    if rng.random() < 0.15:
+        k["empty_first_page"] = True
+    if rng.random() < 0.15:
+        k["empty_mid_page"] = True
     return k
 
 
